@@ -120,14 +120,15 @@ class _Res:
     pass
 
 
-def _fsolve_stub(h, calls, make_x):
-    """contract stub for cardillo.math.fsolve (proved in C22): returns SOME vector flagged converged; the k-th call returns make_x(k, x0)"""
+def _fsolve_stub(h, calls, make_x, fail_at=None):
+    """contract stub for cardillo.math.fsolve (proved in C22): returns SOME vector flagged converged; the k-th call returns make_x(k, x0);
+    call number fail_at reports failure (success = False)"""
     def stub(fun, x0, jac=None, fun_args=(), jac_args=(), options=None, **kw):
         k = len(calls)
         r = _Res()
         r.x = make_x(k, x0)
-        r.success, r.nit, r.error, r.fun, r.njev, r.nfev = True, 2, 0.0, None, 1, 1
-        calls.append(dict(x0=np.array(x0, copy=True), fun_args=tuple(fun_args), x=np.array(r.x, copy=True)))
+        r.success, r.nit, r.error, r.fun, r.njev, r.nfev = (k != fail_at), 2, 0.0, None, 1, 1
+        calls.append(dict(x0=np.array(x0, copy=True), fun_args=tuple(fun_args), x=np.array(r.x, copy=True), options=options))
         return r
     return stub
 
@@ -188,7 +189,7 @@ def riks_rows(h, seed=0):
     h.eq("Riks: arc-length row = |q - q_k|^2 - ds^2", R[-1], dq @ dq - S.ds ** 2)
 
 
-def stored_points(h, solver="Newton", seed=0):
+def stored_points(h, solver="Newton", seed=0, fail_at=None):
     """the real solve() with fsolve replaced by its contract stub (arbitrary converged result per call): every returned point is exactly the result
     of the nonlinear solve for ITS load level (not a predictor, not an initial guess, not overwritten later), and every load step was solved"""
     import cardillo.solver.statics as st
@@ -203,17 +204,29 @@ def stored_points(h, solver="Newton", seed=0):
         # arc-length parameter (last entry) concrete so that the loop's exit test is decided: 3 points inside the span, the 4th outside
         las = [0.125, 0.25, 0.5, 0.875, 1.25]
         make_x = lambda k, x0: (np.asarray(x0, dtype=float) + 0.125 if k == 0 else np.concatenate([h.vec(f"x{k}_", nx), [las[min(k, len(las) - 1)]]]))
-    st.fsolve = _fsolve_stub(h, calls, make_x)
+    st.fsolve = _fsolve_stub(h, calls, make_x, fail_at=fail_at)
+    # the user's solver options (tolerances) must reach every nonlinear solve
+    opts = SolverOptions(newton_atol=h.pos("atol"), newton_rtol=h.pos("rtol"))
     try:
-        with h.capture():
+        with h.capture() as cap:
             if solver == "Newton":
-                S = st.Newton(sysm, n_load_steps=3, verbose=False)
+                S = st.Newton(sysm, n_load_steps=3, verbose=False, options=opts)
             else:
-                S = st.Riks(sysm, la_arc0=0.125, la_arc_span=[-1.0, 1.0], scale_exponent=None)
+                S = st.Riks(sysm, la_arc0=0.125, la_arc_span=[-1.0, 1.0], scale_exponent=None, options=opts)
             out = S.solve()
     finally:
         st.fsolve = real
     nq = sysm.nq
+    for k, c in enumerate(calls):
+        h.holds(f"{solver}: nonlinear solve {k} receives the user's solver options (tolerances)", c["options"] is opts)
+    if fail_at is not None:
+        # load step fail_at does not converge (default: do not continue): only the converged steps before it are returned, with a warning
+        said = [w for w in cap["warnings"] if "not converged" in w.lower()]
+        h.holds("Newton: a run that stops early says so", bool(said))
+        h.holds("Newton: only the load steps solved before the failing one are returned", len(out.t) == fail_at, info=f"returned {len(out.t)}, failing step {fail_at}")
+        for i in range(min(len(out.t), fail_at)):
+            h.eq(f"Newton: returned q[{i}] is the result of the solve for t_{i}", out.q[i], calls[i]["x"][:nq])
+        return
     if solver == "Newton":
         h.holds("Newton: one nonlinear solve per load step, every load step solved", len(calls) == len(S.load_steps) and len(out.t) == len(S.load_steps))
         for i, c in enumerate(calls):
@@ -297,6 +310,8 @@ def cases(tier, seed):
     cs.append(Case("riks_rows/contact", riks_rows, dict(seed=seed), timeout=T, hard=T * 4, max_paths=16))
     for solver in ("Newton", "Riks"):
         cs.append(Case(f"stored_points/{solver}", stored_points, dict(solver=solver, seed=seed), timeout=T, hard=T * 4, sentinel=False, max_paths=16))
+    for k in (1, 2, 3):
+        cs.append(Case(f"stored_points/Newton/fails_at_step{k}", stored_points, dict(solver="Newton", seed=seed, fail_at=k), timeout=T, hard=T * 4, sentinel=False, max_paths=16))
     for which in ("rb", "rod_db", "rod_mixed"):
         cs.append(Case(f"rows/Newton/{which}", rows, dict(which=which, solver="Newton", seed=seed), timeout=T, sentinel=False))
         n = {"rb": 7 + 3, "rod_db": 14 + 6, "rod_mixed": 14 + 6 + 6}[which]
